@@ -6,7 +6,7 @@ from engine.verdict import Ob
 
 ROOT = os.path.dirname(os.path.dirname(os.path.dirname(
     os.path.abspath(__file__))))
-ORACLES = {'layout': ['roundtrip'], 'label-form': ['roundtrip'],
+ORACLES = {'layout': ['roundtrip'], 'entries': ['roundtrip'], 'label-form': ['roundtrip'],
            'roundtrip-field': ['roundtrip'], 'reader-field': ['roundtrip',
                                                               'ranges',
                                                               'bounds'],
@@ -110,8 +110,8 @@ def run(report, tier, seed):
         'six-significant-digit agreement of the numbers (string <-> float '
         'conversion is not interpreted; the number field is only shown to '
         'be the 12-character %E form)',
-        'which coefficient entries are written for each coefficient shape '
-        '(matrix / row / scalar) and that every nonzero is written once',
+        'that no COLUMNS entry is written twice; the objective row (cost) '
+        'entries; sparse 1x1 coefficients (_isscalar is False for them)',
         'the section parsers of fromfile (loops over the lines of the file: '
         'which dictionary entries a line creates); negative RHS on N rows; '
         'removal of empty constraints',
